@@ -48,10 +48,19 @@ def run(ctx):
     pins.check(ctx, PINS)
     rng = ctx.rng
     terms, meta, problems = [], [], []
-    nw = 10 if ctx.quick else 80
+    nw = 12 if ctx.quick else 80
+    # the first twelve are a fixed schedule (dimension, form in which the box is given, permuted axes_order of the input frame)
+    SCHED = [(1, "tuple", False), (2, "object-C", False), (3, "tuple", True), (4, "list", False), (2, "array", True), (3, "object-C", False),
+             (2, "object-F", False), (3, "object-F", True), (1, "object-F", False), (2, "list", True), (4, "object-C", True), (3, "array", False)]
     for wi in range(nw):
-        n = (wi % 4) + 1
-        fam = families.affine_nd(rng, n)
+        n = SCHED[wi][0] if wi < len(SCHED) else (wi % 4) + 1
+        # every third WCS has an input frame object whose axes_order is not the identity: the box is still per input position
+        fao = None
+        if n >= 2 and (SCHED[wi][2] if wi < len(SCHED) else wi % 3 == 2):
+            fao = list(range(n))
+            while fao == list(range(n)):
+                rng.shuffle(fao)
+        fam = families.affine_nd(rng, n, frame_axes_order=fao)
         w = fam.w
         kind = rng.choice(["int", "frac", "zero", "offset"])
         box = []
@@ -66,7 +75,7 @@ def run(ctx):
                 lo = 1000.0 + rng.uniform(0, 5); hi = lo + rng.uniform(1, 50)
             box.append((lo, hi))
         # the box is given as a tuple, as lists, as an array, or as a bounding-box object (in either storage order): always per input axis
-        form = rng.choice(["tuple", "tuple", "list", "array", "object-F", "object-C"])
+        form = SCHED[wi][1] if wi < len(SCHED) else rng.choice(["tuple", "tuple", "list", "array", "object-F", "object-C"])
         if form == "tuple" or (n == 1 and form in ("list", "array")):
             w.bounding_box = box[0] if n == 1 else tuple(box)
         elif form == "list":
@@ -85,7 +94,8 @@ def run(ctx):
         rep = w.bounding_box.bounding_box(order="F")
         rep = (rep,) if n == 1 else rep
         if [tuple(map(float, r)) for r in rep] != box or [tuple(map(float, r)) for r in w.pixel_bounds] != box:
-            problems.append((f"box {box} (given as {form}) is reported back as {rep} / pixel_bounds {w.pixel_bounds}", {"box": box, "given_as": form}))
+            problems.append((f"box {box} (given as {form}; input frame axes_order {fao}) is reported back as {rep} / pixel_bounds {w.pixel_bounds}",
+                             {"box": box, "given_as": form, "input_frame_axes_order": fao}))
         # wrong dimensionality is rejected and changes nothing
         bad = [(0.0, 1.0)] * (n + 1)
         try:
